@@ -152,7 +152,7 @@ pub fn run_inputs<I: CaseInput>(inputs: Vec<I>, d: &mut Driver, res: &mut OpResu
     let replies = d.query_batch(&lines);
     for ((idx, e), reply) in execs.iter().zip(replies.iter()) {
         *res.classes.entry(e.class.clone()).or_default() += 1;
-        if res.samples.len() < 5 && (res.evaluations % 7 == 3 || res.samples.is_empty()) {
+        if res.samples.len() < 6 && (*idx % (inputs.len() / 5 + 1) == 0 || res.samples.is_empty()) {
             res.samples.push(e.line.chars().take(600).collect());
         }
         for (sig, detail) in &e.oracle {
